@@ -56,6 +56,7 @@ THEOREMS = {
         "lookupAux_skip_zero", "paramLoop_spec", "assembleF_spec", "this_first", "hidden_implied_dropped_and_supplied",
         "api_is_visible_params_in_order", "routeC_self", "routeC_step", "bufferify_routes",
         "defaultClones_prefix", "default_arity_clones", "generic_members", "emitted_generic_iff",
+        "genericLoop_targets", "generic_routing_local",
     ]]
 }
 
@@ -103,6 +104,9 @@ def _result(r, cxx):
     return (x.split(" +")[0], ("+" + "+".join(x.split(" +")[1:])) if " +" in x else "")
 
 
+FEATURES = []
+
+
 def gen_description(r, idx):
     cxx = r.random() < 0.7
     decls = [{"decl": "enum Color { RED, GREEN = 5 }"},
@@ -146,9 +150,51 @@ def gen_description(r, idx):
     if cxx and r.random() < 0.4:
         decls.append({"decl": "namespace inner", "declarations": [
             {"decl": "int nsfun(int a, const char *s)"}, {"decl": "void over(int i)"}, {"decl": "void over(long i)"}]})
+    # ---- feature combinations (each recorded in FEATURES for the evidence notes)
+    feats = []
+    GEN_FD = [{"decl": "(float v)", "function_suffix": "_float"}, {"decl": "(double v)", "function_suffix": "_double"}]
+    if r.random() < 0.6:
+        # fortran_generic x character/std::string argument: generic clone -> function -> bufferify/CFI clone
+        sarg = r.choice(["const std::string &name", "const char *name", "std::string &name +intent(inout)",
+                         "char *name +intent(out)+charlen(16)"] if cxx else
+                        ["const char *name", "char *name +intent(out)+charlen(16)", "char *name +intent(inout)"])
+        order = r.random() < 0.5
+        decls.append({"decl": "void gtag(%s)" % (", ".join([sarg, "double v"] if order else ["double v", sarg])),
+                      "fortran_generic": [dict(g) for g in GEN_FD]})
+        feats.append("generic*" + ("string" if "std::string" in sarg else "char"))
+        if r.random() < 0.4:
+            decls.append({"decl": "%s gres(double v)" % ("const std::string" if cxx else "const char *"), "fortran_generic": [dict(g) for g in GEN_FD]})
+            feats.append("generic*string-result")
+    ngs = r.choice([0, 2, 2, 3])
+    for k in range(ngs):
+        # several functions per scope whose generic lists change scalar to rank(1) (one cvariants table per function)
+        extra = r.choice(["", ", const char *label", ", double scale"])
+        decls.append({"decl": "int gsum%d(const int *values, int nvalues%s)" % (k, extra),
+                      "fortran_generic": [{"decl": "(const int *values)", "function_suffix": "_scalar"},
+                                          {"decl": "(const int *values +rank(1))", "function_suffix": "_array"}] +
+                                         ([{"decl": "(const int *values +rank(2))", "function_suffix": "_2d"}] if r.random() < 0.3 else [])})
+    if ngs:
+        feats.append("%d-generic-functions-scalar/array%s" % (ngs, ""))
+    if cxx and r.random() < 0.5:
+        decls.append({"decl": "int dstr(const std::string &s, int n = 2, bool f = true)"})
+        decls.append({"decl": "void dchr(char *out +intent(out)+charlen(20), const char *in, int n = 1)"})
+        feats.append("defaults*string")
+    if cxx and r.random() < 0.5:
+        decls += [{"decl": "void ovs(const std::string &s)"}, {"decl": "void ovs(const char *s, int n)"}, {"decl": "void ovs(int i)"},
+                  {"decl": "const std::string ovs(double d, std::string &o +intent(out))"}][:r.randrange(2, 5)]
+        feats.append("overloads*bufferify")
+    if cxx and r.random() < 0.5:
+        decls.append({"decl": "template<typename T> void tstr(T arg, const std::string &s, char *o +intent(out)+charlen(8))",
+                      "cxx_template": [{"instantiation": "<int>"}, {"instantiation": "<double>"}]})
+        feats.append("template*string")
+    if r.random() < 0.3:
+        decls.append({"decl": "void arstr(double *x +intent(in)+dimension(..), const char *label)", "options": {"F_assumed_rank_max": 2}})
+        feats.append("assumed-rank*char")
     opts = {"wrap_python": False, "wrap_lua": False}
     if r.random() < 0.35:
         opts["F_CFI"] = True
+        feats = [f + "*F_CFI" for f in feats]
+    FEATURES.append(feats)
     if r.random() < 0.3:
         opts["debug"] = True
     if r.random() < 0.15:
@@ -216,6 +262,9 @@ def run(ctx):
             n_desc = 0
             rejected = 0
             descs = [(y, None) for y in corpus_descriptions()]
+            ncorpus_desc = len(descs)
+            del FEATURES[:]
+            accepted = set()
             for i in range(160 if thorough else 60):
                 descs.append(gen_description(r, i))
             for i, (ytext, _cxx) in enumerate(descs):
@@ -249,6 +298,7 @@ def run(ctx):
                     common.rmtree(d)
                     continue
                 tie.add_library("gen%d" % i, lib, d, lib.language != "c")
+                accepted.add(i - ncorpus_desc)
                 n_desc += 1
                 common.rmtree(d)
             ncorp = 0
@@ -263,6 +313,9 @@ def run(ctx):
                     ncorp += 1
                 common.rmtree(d)
             bad, tinfo = tie.finish()
+            import collections
+            fc = collections.Counter(f for i_, fl in enumerate(FEATURES) if i_ in accepted for f in fl)
+            ctx.note("feature_combinations_in_accepted_tie_descriptions", dict(sorted(fc.items())))
             tinfo.update({"generated_descriptions": n_desc, "generator_rejected": rejected, "corpus_configurations": ncorp})
             ctx.note("tie", tinfo)
             for b in bad[:4]:
